@@ -106,4 +106,688 @@ theorem C09_safety (env : Env) (fs : FS) (acts : List Action) (args : List Path)
   rw [processActions_fs] at h ⊢
   exact processFiles_change _ (initRun fs (filenameArgs fs args) ans) rfl h
 
+/-! ### Corollaries in terms of the inputs only -/
+
+/-- **C09_print_diff_only.**  An action list without REPLACE (PRINT, DIFF, EXECUTE, QUERY, IFCHANGED, EXIT1,
+    symlink actions in any number and order) leaves the whole file system as it was. -/
+theorem C09_print_diff_only (env : Env) (fs : FS) (acts : List Action) (args : List Path) (ans : List Str)
+    (h : .replace ∉ acts) : (processActions env fs acts args ans).fs = fs := by
+  rw [processActions_fs]
+  refine processFiles_induct (fun s => s.fs = fs) _ _ (fun s p _ hs => ?_) rfl
+  show (processFile env acts s p).fs = fs
+  rw [processFile_fs, runActions_no_replace env acts _ _ _ h]; exact hs
+
+/-- One file's turn cannot touch a regular file whose content the rewriter maps to itself, when
+    IFCHANGED guards every REPLACE. -/
+theorem processFile_ifchanged {env : Env} {acts : List Action} (s : Run) (p q : Path) {c : Content} {g : Bool}
+    (hg : guardedBy (fun a => decide (a = .ifchanged)) acts = true)
+    (hq : s.fs q = some (.file c g)) (hfix : env.rw c = some c) :
+    (processFile env acts s p).fs q = s.fs q := by
+  rw [processFile_fs]
+  apply Classical.byContradiction
+  intro hne
+  obtain ⟨k, hk, hd, hcur, c', o, hc0, _, hrw, _⟩ := runActions_change acts s.ans (Inv.fresh env s.fs p) hne
+  obtain ⟨a, ha, hga⟩ := guardedBy_spec hg hk
+  have ha' : a = .ifchanged := by simpa using hga
+  subst ha'
+  obtain ⟨o', c'', ho', hc'', hneq⟩ := runActions_done_ifchanged env _ _ _ _ hd ha
+  have hJ := runActions_Inv (acts.take k) s.ans (Inv.fresh env s.fs p) hd
+  have h1 : contentAt s.fs p = some c'' := (hJ.inp c'' hc'').1
+  obtain ⟨c3, hc3, hrw3⟩ := hJ.out o' ho'
+  rw [hc''] at hc3; simp at hc3; subst hc3
+  have h2 : contentAt s.fs q = some c'' := by
+    have := hJ.cur; rw [hcur] at this; rw [this]; exact h1
+  rw [contentAt_file hq] at h2
+  simp at h2; subst h2
+  rw [hfix] at hrw3; simp at hrw3
+  exact hneq hrw3.symm
+
+/-- **C09_ifchanged.**  If IFCHANGED is configured ahead of every REPLACE, a regular file whose rewriter
+    output equals its content keeps its node (bytes and inode), whatever else is on the command line
+    (it may be named several times, directly or through symlinks, under any policy). -/
+theorem C09_ifchanged (env : Env) (fs : FS) (acts : List Action) (args : List Path) (ans : List Str)
+    (q : Path) (c : Content) (g : Bool)
+    (hg : guardedBy (fun a => decide (a = .ifchanged)) acts = true)
+    (hq : fs q = some (.file c g)) (hfix : env.rw c = some c) :
+    (processActions env fs acts args ans).fs q = fs q := by
+  rw [processActions_fs]
+  refine processFiles_induct (fun s => s.fs q = fs q) _ _ (fun s p _ hs => ?_) rfl
+  show (processFile env acts s p).fs q = fs q
+  rw [processFile_ifchanged s p q hg (by rw [hs]; exact hq) hfix]; exact hs
+
+/-- **C09_query_no.**  If a QUERY is configured ahead of every REPLACE and no answer in the sequence means
+    yes (any other text, or no answer at all: end of input), nothing in the file system changes. -/
+theorem C09_query_no (env : Env) (fs : FS) (acts : List Action) (args : List Path) (ans : List Str)
+    (hg : guardedBy Action.isQuery acts = true) (hno : ∀ a ∈ ans, isYes a = false) :
+    (processActions env fs acts args ans).fs = fs := by
+  rw [processActions_fs]
+  have key := processFiles_induct (env := env) (acts := acts)
+    (fun s => s.fs = fs ∧ ∀ a ∈ s.ans, isYes a = false) (filenameArgs fs args).files
+    (initRun fs (filenameArgs fs args) ans) (fun s p _ hs => ?_) ⟨rfl, hno⟩
+  · exact key.1
+  · obtain ⟨hfs, hans⟩ := hs
+    constructor
+    · rw [processFile_fs, ← hfs]
+      funext q
+      apply Classical.byContradiction
+      intro hne
+      obtain ⟨k, hk, hd, _⟩ := runActions_change acts s.ans (Inv.fresh env s.fs p) hne
+      obtain ⟨a, ha, hga⟩ := guardedBy_spec hg hk
+      have : ∃ n, Action.query n ∈ acts.take k := by
+        cases a <;> simp [Action.isQuery] at hga
+        exact ⟨_, ha⟩
+      obtain ⟨x, hx, hy⟩ := runActions_done_query env _ _ _ _ hd this
+      rw [hans x hx] at hy; simp at hy
+    · rw [processFile_ans]
+      obtain ⟨pre, hpre⟩ := runActions_ans env acts s.fs (MState.fresh p) s.ans
+      intro a ha
+      exact hans a (by rw [hpre]; exact List.mem_append_right _ ha)
+
+/-- **C09_rewriter_failure.**  A regular file on whose content the rewriter raises (or which cannot be
+    decoded) keeps its node under every action list, policy, argument list and answer sequence. -/
+theorem C09_rewriter_failure (env : Env) (fs : FS) (acts : List Action) (args : List Path) (ans : List Str)
+    (q : Path) (c : Content) (g : Bool) (hq : fs q = some (.file c g))
+    (hfail : env.rw c = none ∨ env.readable c = false) :
+    (processActions env fs acts args ans).fs q = fs q := by
+  rw [processActions_fs]
+  refine processFiles_induct (fun s => s.fs q = fs q) _ _ (fun s p _ hs => ?_) rfl
+  show (processFile env acts s p).fs q = fs q
+  rw [← hs, processFile_fs]
+  apply Classical.byContradiction
+  intro hne
+  obtain ⟨k, hk, hd, hcur, c', o, hc0, hrd, hrw, _⟩ := runActions_change acts s.ans (Inv.fresh env s.fs p) hne
+  have hJ := runActions_Inv (acts.take k) s.ans (Inv.fresh env s.fs p) hd
+  have h2 : contentAt s.fs q = some c' := by
+    have := hJ.cur; rw [hcur] at this; rw [this]; exact hc0
+  rw [contentAt_file (by rw [hs]; exact hq)] at h2
+  simp at h2; subst h2
+  rcases hfail with h | h
+  · rw [h] at hrw; simp at hrw
+  · rw [h] at hrd; simp at hrd
+
+/-- a one-file world for the example below: path 3 holds content 10, which the rewriter maps to 11 -/
+def fsW' : FS := fun p => if p = 3 then some (.file 10 true) else none
+def envW' : Env := ⟨fun c => if c = 10 then some 11 else some c, fun _ => true⟩
+
+/-- **C09_rewriter_once.**  `Modifier` laziness: whatever the action list (PRINT, IFCHANGED, DIFF, REPLACE, …
+    may all need the output), the rewriter is invoked at most once during one file's turn. -/
+theorem C09_rewriter_once (env : Env) (acts : List Action) (fs : FS) (p : Path) (ans : List Str) :
+    rewrites (runActions env acts fs (MState.fresh p) ans).ev ≤ 1 := by
+  have := runActions_rewrites env acts fs (MState.fresh p) ans
+  simpa [budget, MState.fresh] using this
+
+-- the bound is attained although three actions use the output
+example : rewrites (runActions envW' [.print, .ifchanged, .diff, .replace] fsW' (MState.fresh 3) []).ev = 1 := by decide
+
+/-! ### Symlink policies -/
+
+/-- With a symlink policy action other than `replace` at the head of the tuple, every write of one
+    file's turn goes to a path that is not a symlink. -/
+theorem processFile_head_policy {env : Env} {pol : Policy} {rest : List Action} (s : Run) (p q : Path)
+    (hpol : pol ≠ .replace)
+    (hne : (processFile env (.symlink pol :: rest) s p).fs q ≠ s.fs q) :
+    isLink s.fs q = false ∧
+    (isLink s.fs p = false → q = p) ∧
+    (isLink s.fs p = true → pol = .follow ∧ resolve s.fs p = some q) := by
+  rw [processFile_fs] at hne
+  obtain ⟨k, hk, hd, hcur, c, o, hc0, _, _, _⟩ :=
+    runActions_change (.symlink pol :: rest) s.ans (Inv.fresh env s.fs p) hne
+  cases k with
+  | zero => simp at hk
+  | succ k =>
+    rw [List.take_succ_cons] at hd hcur
+    have hd1 := runActions_cons_done_inv hd
+    rw [runActions_cons_done hd1] at hcur
+    simp only at hcur
+    -- after the policy action, `m.filename` is not a symlink
+    have key : (step env (.symlink pol) s.fs (MState.fresh p) s.ans).fs = s.fs ∧
+        isLink s.fs (step env (.symlink pol) s.fs (MState.fresh p) s.ans).st.cur = false ∧
+        (isLink s.fs p = false → (step env (.symlink pol) s.fs (MState.fresh p) s.ans).st.cur = p) ∧
+        (isLink s.fs p = true → pol = .follow ∧
+          resolve s.fs p = some (step env (.symlink pol) s.fs (MState.fresh p) s.ans).st.cur) := by
+      cases pol with
+      | replace => exact absurd rfl hpol
+      | follow =>
+        rw [step_follow]
+        by_cases hl : isLink s.fs p = true
+        · cases hr : resolve s.fs p with
+          | none => simp [contentAt, hr] at hc0
+          | some t =>
+            have hnl := resolve_nonlink hr
+            refine ⟨rfl, ?_, ?_, ?_⟩
+            · simpa [MState.fresh, hl, hr] using hnl
+            · intro h; rw [hl] at h; simp at h
+            · intro _; simp [MState.fresh, hl, hr]
+        · have hl' : isLink s.fs p = false := by simpa using hl
+          refine ⟨rfl, ?_, ?_, ?_⟩
+          · simp [MState.fresh, hl']
+          · intro _; simp [MState.fresh, hl']
+          · intro h; rw [hl'] at h; simp at h
+      | skip =>
+        have h1 := step_symlink_done (Or.inl rfl) hd1
+        obtain ⟨h2, h3⟩ := step_simple env (.symlink .skip) s.fs (MState.fresh p) s.ans (by simp)
+        rw [h2, h3]
+        exact ⟨rfl, h1, fun _ => rfl, fun h => by simp only [MState.fresh] at h1; rw [h1] at h; simp at h⟩
+      | error =>
+        have h1 := step_symlink_done (Or.inr rfl) hd1
+        obtain ⟨h2, h3⟩ := step_simple env (.symlink .error) s.fs (MState.fresh p) s.ans (by simp)
+        rw [h2, h3]
+        exact ⟨rfl, h1, fun _ => rfl, fun h => by simp only [MState.fresh] at h1; rw [h1] at h; simp at h⟩
+    obtain ⟨kfs, knl, kp, kl⟩ := key
+    have hstay := (runActions_cur_of_nonlink env (rest.take k)
+      (step env (.symlink pol) s.fs (MState.fresh p) s.ans).fs
+      (step env (.symlink pol) s.fs (MState.fresh p) s.ans).st
+      (step env (.symlink pol) s.fs (MState.fresh p) s.ans).ans (by rw [kfs]; exact knl)).1
+    rw [hstay] at hcur
+    rw [← hcur]
+    exact ⟨knl, kp, kl⟩
+
+/-- **C09_follow_only_target.**  Under the follow policy the turn of a symlink argument `p` can change
+    only the node of the file the link resolves to (from any state of the loop over files); `p` itself
+    keeps its node. -/
+theorem C09_follow_only_target (env : Env) (rest : List Action) (s : Run) (p q : Path)
+    (hl : isLink s.fs p = true)
+    (hne : (processFile env (.symlink .follow :: rest) s p).fs q ≠ s.fs q) :
+    resolve s.fs p = some q ∧ q ≠ p := by
+  obtain ⟨hq, _, h3⟩ := processFile_head_policy s p q (by simp) hne
+  refine ⟨(h3 hl).2, ?_⟩
+  intro h; subst h; rw [hl] at hq; simp at hq
+
+/-- **C09_links_preserved.**  While the policy action (error, skip or follow) is at the head of the action
+    tuple, no path that is a symlink before the run has a different node after it — whatever the rest of
+    the tuple, the arguments and the answers. -/
+theorem C09_links_preserved (env : Env) (fs : FS) (pol : Policy) (rest : List Action) (args : List Path)
+    (ans : List Str) (hpol : pol ≠ .replace) (q : Path) (hq : isLink fs q = true) :
+    (processActions env fs (.symlink pol :: rest) args ans).fs q = fs q := by
+  rw [processActions_fs]
+  refine processFiles_induct (fun s => s.fs q = fs q) _ _ (fun s p _ hs => ?_) rfl
+  show (processFile env (.symlink pol :: rest) s p).fs q = fs q
+  rw [← hs]
+  apply Classical.byContradiction
+  intro hne
+  have h1 := (processFile_head_policy s p q hpol hne).1
+  have h2 : isLink s.fs q = true := by
+    unfold isLink at hq ⊢; rw [hs]; exact hq
+  rw [h1] at h2; simp at h2
+
+/-- Under the error or skip policy at the head of the tuple the only paths whose node can differ after the run are arguments (after directory expansion) that are not
+    symlinks: no symlink is replaced and no file is modified through a symlink. -/
+theorem C09_skip_error_untouched_acts (env : Env) (fs : FS) (pol : Policy) (rest : List Action)
+    (args : List Path) (ans : List Str) (hpol : pol = .skip ∨ pol = .error) (q : Path)
+    (hne : (processActions env fs (.symlink pol :: rest) args ans).fs q ≠ fs q) :
+    q ∈ (filenameArgs fs args).files ∧ isLink fs q = false := by
+  rw [processActions_fs] at hne
+  have hpr : pol ≠ .replace := by rcases hpol with h | h <;> (subst h; simp)
+  have key := processFiles_induct (env := env) (acts := .symlink pol :: rest)
+    (fun s => ∀ q, s.fs q ≠ fs q → q ∈ (filenameArgs fs args).files ∧ isLink fs q = false)
+    (filenameArgs fs args).files (initRun fs (filenameArgs fs args) ans) (fun s p hp hs q hq => ?_)
+    (fun q hq => absurd rfl hq)
+  · exact key q hne
+  · by_cases hch : (processFile env (.symlink pol :: rest) s p).fs q = s.fs q
+    · exact hs q (by rw [← hch]; exact hq)
+    · obtain ⟨h1, h2, h3⟩ := processFile_head_policy s p q hpr hch
+      have hnl : isLink s.fs p = false := by
+        cases hl : isLink s.fs p with
+        | false => rfl
+        | true =>
+          have := (h3 hl).1
+          rcases hpol with h | h <;> (subst h; simp at this)
+      have hqp := h2 hnl
+      subst hqp
+      refine ⟨hp, ?_⟩
+      by_cases hsame : s.fs q = fs q
+      · unfold isLink at hnl ⊢; rw [← hsame]; exact hnl
+      · exact (hs q hsame).2
+
+/-! ### Option parsing: when is the policy action still in the tuple? -/
+
+theorem optFold_append (keep : Bool) : ∀ (l1 l2 : List Opt) (acts : List Action),
+    optFold keep acts (l1 ++ l2) =
+      match optFold keep acts l1 with
+      | .ok a => optFold keep a l2
+      | .error e => .error e
+  | [], l2, acts => rfl
+  | o :: l1, l2, acts => by
+    simp only [List.cons_append, optFold]
+    cases optStep keep acts o with
+    | error e => rfl
+    | ok a => exact optFold_append keep l1 l2 a
+
+/-- The symlink policy the command line asks for: the last `--symlinks=…`, default `error`. -/
+def configuredPolicy (opts : List Opt) : Policy :=
+  opts.foldl (fun cur o => match o with | .symlinks (some p) => p | _ => cur) .error
+
+/-- D4's dividing line: the last option that touches the action tuple is `--symlinks=pol`
+    (counting the implicit leading `--symlinks=error`). -/
+def policyActionPresent (opts : List Opt) (pol : Policy) : Bool :=
+  (Opt.symlinks (some .error) :: opts).getLast? == some (.symlinks (some pol))
+
+/-- If no action option follows the last `--symlinks=pol`, the parsed tuple starts with that policy's
+    action and contains no other symlink action. -/
+theorem parse_policy_present {keep tty : Bool} {opts : List Opt} {pol : Policy} {acts : List Action}
+    (hp : policyActionPresent opts pol = true) (h : parseOptions keep tty opts = .ok acts) :
+    ∃ rest, acts = .symlink pol :: rest ∧ ∀ a ∈ rest, a.isSymlink = false := by
+  unfold policyActionPresent at hp
+  have hp' : (Opt.symlinks (some .error) :: opts).getLast? = some (.symlinks (some pol)) := by simpa using hp
+  obtain ⟨l', hl'⟩ := List.getLast?_eq_some_iff.mp hp'
+  unfold parseOptions at h
+  rw [hl', optFold_append] at h
+  cases h1 : optFold keep (defaultActions tty) l' with
+  | error e => rw [h1] at h; simp at h
+  | ok a =>
+    rw [h1] at h
+    simp only [optFold, optStep] at h
+    simp at h
+    refine ⟨a.filter (fun x => !x.isSymlink), h.symm, ?_⟩
+    intro x hx
+    have := (List.mem_filter.mp hx).2
+    simpa using this
+
+theorem policyActionPresent_configured {opts : List Opt} {pol : Policy}
+    (hp : policyActionPresent opts pol = true) : configuredPolicy opts = pol := by
+  unfold policyActionPresent at hp
+  have hp' : (Opt.symlinks (some .error) :: opts).getLast? = some (.symlinks (some pol)) := by simpa using hp
+  obtain ⟨l', hl'⟩ := List.getLast?_eq_some_iff.mp hp'
+  have : configuredPolicy opts = configuredPolicy (Opt.symlinks (some .error) :: opts) := by
+    simp [configuredPolicy]
+  rw [this, hl']
+  simp [configuredPolicy, List.foldl_append]
+
+/-- **C09_skip_error_untouched_partial.**  For a whole invocation (`main`: option parsing, then
+    `process_actions`): if the policy asked for is `skip` or `error` *and its action is still in the tuple*
+    (no action option after the last `--symlinks`), then the only paths whose node can differ after the run
+    are non-symlink arguments themselves — no symlink is replaced, nothing is written through a symlink.
+    The full-strength statement (hypothesis `configuredPolicy opts = pol` only) is false on the unchanged
+    tree (D4): see `C09_skip_error_untouched_full_false`. -/
+theorem C09_skip_error_untouched_partial (env : Env) (keep tty : Bool) (opts : List Opt) (fs : FS)
+    (args : List Path) (ans : List Str) (pol : Policy) (hpol : pol = .skip ∨ pol = .error)
+    (hpresent : policyActionPresent opts pol = true) (q : Path)
+    (hne : (main env keep tty opts fs args ans).fs q ≠ fs q) :
+    q ∈ (filenameArgs fs args).files ∧ isLink fs q = false := by
+  unfold main at hne
+  cases hparse : parseOptions keep tty opts with
+  | error e =>
+    rw [hparse] at hne
+    cases e <;> simp at hne
+  | ok acts =>
+    rw [hparse] at hne
+    simp only at hne
+    obtain ⟨rest, hacts, _⟩ := parse_policy_present hpresent hparse
+    subst hacts
+    exact C09_skip_error_untouched_acts env fs pol rest args ans hpol q hne
+
+/-- The same for the follow policy: with its action still in the tuple no symlink is ever replaced. -/
+theorem C09_follow_links_kept_partial (env : Env) (keep tty : Bool) (opts : List Opt) (fs : FS)
+    (args : List Path) (ans : List Str) (pol : Policy) (hpol : pol ≠ .replace)
+    (hpresent : policyActionPresent opts pol = true) (q : Path) (hq : isLink fs q = true) :
+    (main env keep tty opts fs args ans).fs q = fs q := by
+  unfold main
+  cases hparse : parseOptions keep tty opts with
+  | error e => cases e <;> rfl
+  | ok acts =>
+    simp only
+    obtain ⟨rest, hacts, _⟩ := parse_policy_present hpresent hparse
+    subst hacts
+    exact C09_links_preserved env fs pol rest args ans hpol q hq
+
+/-! ### The same clauses at full strength for the tree with `fixes/C09-D4.diff` (`keep = true`) -/
+
+/-- `parse_action` never yields a symlink action, so `--actions=…` lists contain none. -/
+def Opt.wf : Opt → Bool
+  | .actions as => as.all (fun a => !a.isSymlink)
+  | _ => true
+
+theorem filter_symlink_nil {l : List Action} (h : ∀ a ∈ l, a.isSymlink = false) : l.filter Action.isSymlink = [] := by
+  rw [List.filter_eq_nil_iff]
+  intro a ha; rw [h a ha]; simp
+
+theorem filter_not_symlink_free (l : List Action) : ∀ a ∈ l.filter (fun a => !a.isSymlink), a.isSymlink = false := by
+  intro a ha
+  simpa using (List.mem_filter.mp ha).2
+
+theorem setActions_keep {cur : Policy} {rest new : List Action} (h : ∀ a ∈ rest, a.isSymlink = false) :
+    setActions true (.symlink cur :: rest) new = .symlink cur :: new := by
+  simp [setActions, List.filter_cons, Action.isSymlink, filter_symlink_nil h]
+
+/-- With the fix, the tuple always starts with the action of the policy asked for so far. -/
+theorem optFold_keep_inv : ∀ (opts : List Opt) (cur : Policy) (rest acts : List Action),
+    (∀ a ∈ rest, a.isSymlink = false) → (∀ o ∈ opts, o.wf = true) →
+    optFold true (.symlink cur :: rest) opts = .ok acts →
+    ∃ rest', acts = .symlink (opts.foldl (fun cur o => match o with | .symlinks (some p) => p | _ => cur) cur) :: rest' ∧
+      ∀ a ∈ rest', a.isSymlink = false
+  | [], cur, rest, acts, hrest, _, h => by
+    simp [optFold] at h; subst h; exact ⟨rest, rfl, hrest⟩
+  | o :: os, cur, rest, acts, hrest, hwf, h => by
+    have hwf' : ∀ o ∈ os, o.wf = true := fun x hx => hwf x (List.mem_cons_of_mem _ hx)
+    have hwfo := hwf o (by simp)
+    simp only [optFold] at h
+    cases o with
+    | actions as =>
+      simp only [optStep, setActions_keep hrest] at h
+      have hs : ∀ a ∈ as, a.isSymlink = false := by
+        intro a ha
+        simp only [Opt.wf, List.all_eq_true] at hwfo
+        simpa using hwfo a ha
+      simpa using optFold_keep_inv os cur as acts hs hwf' h
+    | actionsBad => simp [optStep] at h
+    | print =>
+      simp only [optStep, setActions_keep hrest] at h
+      simpa using optFold_keep_inv os cur _ acts (by simp [Action.isSymlink]) hwf' h
+    | diff =>
+      simp only [optStep, setActions_keep hrest] at h
+      simpa using optFold_keep_inv os cur _ acts (by simp [Action.isSymlink]) hwf' h
+    | replace =>
+      simp only [optStep, setActions_keep hrest] at h
+      simpa using optFold_keep_inv os cur _ acts (by simp [Action.isSymlink]) hwf' h
+    | diffReplace =>
+      simp only [optStep, setActions_keep hrest] at h
+      simpa using optFold_keep_inv os cur _ acts (by simp [Action.isSymlink]) hwf' h
+    | interactive =>
+      simp only [optStep, setActions_keep hrest] at h
+      simpa using optFold_keep_inv os cur _ acts (by simp [actionsInteractive, Action.isSymlink]) hwf' h
+    | symlinks v =>
+      cases v with
+      | none => simp [optStep] at h
+      | some p =>
+        simp only [optStep] at h
+        simpa using optFold_keep_inv os p _ acts (filter_not_symlink_free _) hwf' h
+
+/-- With the fix, whatever the order of the options, the parsed tuple starts with the action of the policy
+    asked for (`configuredPolicy`) and contains no other symlink action. -/
+theorem parse_fixed_policy {tty : Bool} {opts : List Opt} {acts : List Action}
+    (hwf : ∀ o ∈ opts, o.wf = true) (h : parseOptions true tty opts = .ok acts) :
+    ∃ rest, acts = .symlink (configuredPolicy opts) :: rest ∧ ∀ a ∈ rest, a.isSymlink = false := by
+  unfold parseOptions at h
+  simp only [optFold, optStep] at h
+  exact optFold_keep_inv opts .error _ acts (filter_not_symlink_free _) hwf h
+
+/-- **C09_skip_error_untouched_fixed.**  The symlink clause at full strength on the model of the tree with
+    `fixes/C09-D4.diff`: whenever the policy asked for is skip or error — in any option order — only
+    non-symlink arguments themselves can be modified. -/
+theorem C09_skip_error_untouched_fixed (env : Env) (tty : Bool) (opts : List Opt) (fs : FS)
+    (args : List Path) (ans : List Str) (pol : Policy) (hwf : ∀ o ∈ opts, o.wf = true)
+    (hpol : pol = .skip ∨ pol = .error) (hconf : configuredPolicy opts = pol) (q : Path)
+    (hne : (main env true tty opts fs args ans).fs q ≠ fs q) :
+    q ∈ (filenameArgs fs args).files ∧ isLink fs q = false := by
+  unfold main at hne
+  cases hparse : parseOptions true tty opts with
+  | error e =>
+    rw [hparse] at hne
+    cases e <;> simp at hne
+  | ok acts =>
+    rw [hparse] at hne
+    simp only at hne
+    obtain ⟨rest, hacts, _⟩ := parse_fixed_policy hwf hparse
+    subst hacts
+    rw [hconf] at hne
+    exact C09_skip_error_untouched_acts env fs pol rest args ans hpol q hne
+
+/-- **C09_links_kept_fixed.**  With the fix, under the error, skip or follow policy no symlink is ever
+    replaced, in any option order. -/
+theorem C09_links_kept_fixed (env : Env) (tty : Bool) (opts : List Opt) (fs : FS)
+    (args : List Path) (ans : List Str) (hwf : ∀ o ∈ opts, o.wf = true)
+    (hpol : configuredPolicy opts ≠ .replace) (q : Path) (hq : isLink fs q = true) :
+    (main env true tty opts fs args ans).fs q = fs q := by
+  unfold main
+  cases hparse : parseOptions true tty opts with
+  | error e => cases e <;> rfl
+  | ok acts =>
+    simp only
+    obtain ⟨rest, hacts, _⟩ := parse_fixed_policy hwf hparse
+    subst hacts
+    exact C09_links_preserved env fs _ rest args ans hpol q hq
+
+/-! ### Isolation: a failure on one file neither stops the others nor goes unreported -/
+
+theorem processFile_errors_mono (env : Env) (acts : List Action) (s : Run) (p : Path) (m : Msg)
+    (h : m ∈ s.errors) : m ∈ (processFile env acts s p).errors := by
+  rw [processFile_errors]
+  split
+  · exact List.mem_append_left _ h
+  · exact h
+
+theorem processFiles_errors_mono (env : Env) (acts : List Action) (files : List Path) (s : Run) (m : Msg)
+    (h : m ∈ s.errors) : m ∈ (processFiles env acts files s).errors :=
+  processFiles_induct (fun s => m ∈ s.errors) files s (fun s p _ hs => processFile_errors_mono env acts s p m hs) h
+
+/-- D12's dividing line: `symlink_error` is not in the tuple, or no argument is a symlink. -/
+def noSysExit (fs : FS) (acts : List Action) (files : List Path) : Bool :=
+  !acts.contains (.symlink .error) || files.all (fun p => !isLink fs p)
+
+/-- Under `noSysExit` the loop over files never leaves early, from the initial state on. -/
+theorem processFiles_nohalt {env : Env} {fs : FS} {acts : List Action} {files : List Path}
+    (hno : noSysExit fs acts files = true) :
+    ∀ (sub : List Path) (s : Run), (∀ p ∈ sub, p ∈ files) → s.halted = none →
+      (∀ p, isLink fs p = false → isLink s.fs p = false) →
+      (processFiles env acts sub s).halted = none := by
+  intro sub s hsub hs hlinks
+  have key := processFiles_induct (env := env) (acts := acts)
+    (fun s => s.halted = none ∧ ∀ p, isLink fs p = false → isLink s.fs p = false) sub s
+    (fun s p hp hP => ?_) ⟨hs, hlinks⟩
+  · exact key.1
+  · obtain ⟨hh, hl⟩ := hP
+    constructor
+    · rw [processFile_halted env acts s p hh]
+      simp only [noSysExit, Bool.or_eq_true, Bool.not_eq_true', List.all_eq_true] at hno
+      rcases hno with h1 | h2
+      · intro hsx
+        have := runActions_sysexit_mem env acts _ _ _ hsx
+        have h1' : acts.contains (.symlink .error) = false := h1
+        simp at h1'
+        exact h1' this
+      · have := h2 p (hsub p hp)
+        exact runActions_sysexit_link env acts s.fs (MState.fresh p) s.ans (hl p (by simpa using this))
+    · intro q hq
+      rw [processFile_fs]
+      rcases runActions_nodes env acts s.fs (MState.fresh p) s.ans q with h | ⟨o, h⟩
+      · unfold isLink; rw [h]; exact hl q hq
+      · unfold isLink; rw [h]
+
+/-- **C09_isolation_partial.**  Provided SystemExit cannot occur (`noSysExit`: `symlink_error` is not in
+    the tuple or no argument is a symlink), for every position of the expanded argument list:
+    the loop reaches that file, continues with the files after it whatever happened to it, and if its
+    action loop ended with an exception the exit status is non-zero and the final message names the file
+    with that error; every argument that is neither a file nor a directory is reported the same way.
+    Full strength (without `noSysExit`) is false on the unchanged tree (D12): `C09_isolation_full_false`. -/
+theorem C09_isolation_partial (env : Env) (fs : FS) (acts : List Action) (args : List Path) (ans : List Str)
+    (hno : noSysExit fs acts (filenameArgs fs args).files = true) :
+    (processActions env fs acts args ans).sysexit = none ∧
+    (∀ pre p post, (filenameArgs fs args).files = pre ++ p :: post →
+      (processFiles env acts pre (initRun fs (filenameArgs fs args) ans)).halted = none ∧
+      processFiles env acts (filenameArgs fs args).files (initRun fs (filenameArgs fs args) ans) =
+        processFiles env acts post
+          (processFile env acts (processFiles env acts pre (initRun fs (filenameArgs fs args) ans)) p) ∧
+      ∀ e, (runActions env acts (processFiles env acts pre (initRun fs (filenameArgs fs args) ans)).fs
+              (MState.fresh p) (processFiles env acts pre (initRun fs (filenameArgs fs args) ans)).ans).oc = .error e →
+        (processActions env fs acts args ans).status ≠ 0 ∧
+        (⟨p, e⟩ : Msg) ∈ (processActions env fs acts args ans).summary) ∧
+    (∀ a ∈ args, isBadArg fs a = true →
+      (processActions env fs acts args ans).status ≠ 0 ∧
+      (⟨a, .badFilename⟩ : Msg) ∈ (processActions env fs acts args ans).summary) := by
+  have hinit : (initRun fs (filenameArgs fs args) ans).halted = none := rfl
+  have hlinks : ∀ p, isLink fs p = false → isLink (initRun fs (filenameArgs fs args) ans).fs p = false :=
+    fun p h => h
+  have hall := processFiles_nohalt (env := env) hno (filenameArgs fs args).files _ (fun p h => h) hinit hlinks
+  -- a reported error makes the status non-zero and appears in the final message
+  have report : ∀ m : Msg,
+      m ∈ (processFiles env acts (filenameArgs fs args).files (initRun fs (filenameArgs fs args) ans)).errors →
+      (processActions env fs acts args ans).status ≠ 0 ∧ m ∈ (processActions env fs acts args ans).summary := by
+    intro m hm
+    simp only [processActions, finish, hall]
+    split
+    · rename_i hemp
+      simp only [List.isEmpty_iff] at hemp
+      rw [hemp] at hm; simp at hm
+    · exact ⟨by simp, hm⟩
+  refine ⟨?_, ?_, ?_⟩
+  · simp only [processActions, finish, hall]
+    split <;> rfl
+  · intro pre p post hfiles
+    have hpre := processFiles_nohalt (env := env) hno pre _
+      (fun x hx => by rw [hfiles]; exact List.mem_append_left _ hx) hinit hlinks
+    have hpre1 := processFiles_nohalt (env := env) hno (pre ++ [p]) _
+      (fun x hx => by
+        rw [hfiles]
+        rcases List.mem_append.mp hx with h | h
+        · exact List.mem_append_left _ h
+        · simp at h; subst h; simp) hinit hlinks
+    have hsplit : processFiles env acts (pre ++ [p]) (initRun fs (filenameArgs fs args) ans) =
+        processFile env acts (processFiles env acts pre (initRun fs (filenameArgs fs args) ans)) p := by
+      rw [processFiles_append pre [p] _ hpre hinit]
+      by_cases hh : (processFile env acts (processFiles env acts pre (initRun fs (filenameArgs fs args) ans)) p).halted = none
+      · rw [processFiles_cons_go hh]; rfl
+      · rw [processFiles_cons_halt hh]
+    have hwhole : processFiles env acts (filenameArgs fs args).files (initRun fs (filenameArgs fs args) ans) =
+        processFiles env acts post
+          (processFile env acts (processFiles env acts pre (initRun fs (filenameArgs fs args) ans)) p) := by
+      have : (filenameArgs fs args).files = (pre ++ [p]) ++ post := by rw [hfiles]; simp
+      rw [this, processFiles_append (pre ++ [p]) post _ hpre1 hinit, hsplit]
+    refine ⟨hpre, hwhole, ?_⟩
+    intro e he
+    apply report
+    rw [hwhole]
+    apply processFiles_errors_mono
+    rw [processFile_errors, he]
+    simp
+  · intro a ha hbad
+    apply report
+    apply processFiles_errors_mono
+    simp only [initRun, filenameArgs, List.mem_map, List.mem_filter, List.mem_reverse]
+    exact ⟨a, ⟨ha, hbad⟩, rfl⟩
+
+/-! ### Witnesses: where the unchanged code violates the property (D4, D12), and that the hypotheses of the
+    theorems above are satisfiable by non-trivial inputs -/
+
+section Witness
+
+/-- 1 ↦ symlink to 2, 2 ↦ regular file with content 10, 3 ↦ regular file with content 10, 4 ↦ regular file
+    with content 12 (already tidy), 5 ↦ regular file with content 13 (does not parse). -/
+def fsW : FS := fun p =>
+  if p = 1 then some (.link 2) else if p = 2 then some (.file 10 true) else if p = 3 then some (.file 10 true)
+  else if p = 4 then some (.file 12 true) else if p = 5 then some (.file 13 true) else none
+
+/-- rewriter: 10 ↦ 11, 13 fails, everything else is a fixed point -/
+def envW : Env := ⟨fun c => if c = 10 then some 11 else if c = 13 then none else some c, fun _ => true⟩
+
+/-- D4: `tidy-imports --symlinks=skip --replace link.py`: the policy asked for is `skip`, yet the tuple is
+    `[IFCHANGED, REPLACE]` and the symlink is replaced by a regular file with the rewritten content. -/
+theorem D4_witness :
+    configuredPolicy [.symlinks (some .skip), .replace] = .skip ∧
+    (parseOptions false false [.symlinks (some .skip), .replace]).toOption = some [.ifchanged, .replace] ∧
+    (main envW false false [.symlinks (some .skip), .replace] fsW [1] []).fs 1 = some (.file 11 false) ∧
+    (main envW false false [.symlinks (some .skip), .replace] fsW [1] []).status = 0 := by decide
+
+/-- D4 with the default policy (`error`): `tidy-imports --replace link.py`. -/
+theorem D4_witness_default :
+    configuredPolicy [.replace] = .error ∧
+    (main envW false false [.replace] fsW [1] []).fs 1 = some (.file 11 false) := by decide
+
+/-- D4 under `follow`: `--symlinks=follow --actions=REPLACE link.py` replaces the link instead of its target. -/
+theorem D4_witness_follow :
+    configuredPolicy [.symlinks (some .follow), .actions [.replace]] = .follow ∧
+    (main envW false false [.symlinks (some .follow), .actions [.replace]] fsW [1] []).fs 1 = some (.file 11 false) ∧
+    (main envW false false [.symlinks (some .follow), .actions [.replace]] fsW [1] []).fs 2 = some (.file 10 true) := by
+  decide
+
+/-- The full-strength symlink clause (hypothesis: the policy *asked for* is skip or error). -/
+def SkipErrorUntouchedFull : Prop :=
+  ∀ (env : Env) (tty : Bool) (opts : List Opt) (fs : FS) (args : List Path) (ans : List Str) (pol : Policy),
+    (pol = .skip ∨ pol = .error) → configuredPolicy opts = pol →
+    ∀ q, (main env false tty opts fs args ans).fs q ≠ fs q → q ∈ (filenameArgs fs args).files ∧ isLink fs q = false
+
+/-- It is false on the model of the unchanged code (D4). -/
+theorem C09_skip_error_untouched_full_false : ¬ SkipErrorUntouchedFull := by
+  intro h
+  have := h envW false [.symlinks (some .skip), .replace] fsW [1] [] .skip (Or.inl rfl) (by decide) 1 (by decide)
+  revert this
+  decide
+
+/-- With `fixes/C09-D4.diff` (`keep = true`) the three D4 inputs leave the symlink alone. -/
+theorem D4_fixed_witness :
+    (main envW true false [.symlinks (some .skip), .replace] fsW [1] []).fs 1 = some (.link 2) ∧
+    (main envW true false [.symlinks (some .skip), .replace] fsW [1] []).fs 2 = some (.file 10 true) ∧
+    (main envW true false [.replace] fsW [1] []).fs 1 = some (.link 2) ∧
+    (main envW true false [.replace] fsW [1] []).sysexit = some 1 ∧
+    (main envW true false [.symlinks (some .follow), .actions [.replace]] fsW [1] []).fs 1 = some (.link 2) ∧
+    (main envW true false [.symlinks (some .follow), .actions [.replace]] fsW [1] []).fs 2 = some (.file 11 false) := by
+  decide
+
+/-- D12: `tidy-imports --replace --symlinks=error link.py c.py`: SystemExit at `link.py`; `c.py` (path 3),
+    which alone would be rewritten, is never processed. -/
+theorem D12_witness :
+    (parseOptions false false [.replace, .symlinks (some .error)]).toOption = some [.symlink .error, .ifchanged, .replace] ∧
+    (main envW false false [.replace, .symlinks (some .error)] fsW [1, 3] []).sysexit = some 1 ∧
+    (main envW false false [.replace, .symlinks (some .error)] fsW [1, 3] []).fs 3 = some (.file 10 true) ∧
+    Event.begin 3 ∉ (main envW false false [.replace, .symlinks (some .error)] fsW [1, 3] []).ev ∧
+    (main envW false false [.replace, .symlinks (some .error)] fsW [3] []).fs 3 = some (.file 11 false) := by decide
+
+/-- D12, second face: the error collected for an earlier file (5 does not parse) is dropped from the final
+    message when a later symlink ends the run (the status is still non-zero). -/
+theorem D12_witness_summary :
+    (main envW false false [.replace, .symlinks (some .error)] fsW [5, 1] []).summary = [] ∧
+    (main envW false false [.replace, .symlinks (some .error)] fsW [5, 1] []).status = 1 ∧
+    (main envW false false [.replace, .symlinks (some .skip)] fsW [5, 1] []).summary = [⟨5, .rewriter⟩] := by decide
+
+/-- The full-strength isolation clause: every file of the expanded argument list is reached. -/
+def IsolationFull : Prop :=
+  ∀ (env : Env) (fs : FS) (acts : List Action) (args : List Path) (ans : List Str) (pre post : List Path) (p : Path),
+    (filenameArgs fs args).files = pre ++ p :: post →
+    (processFiles env acts pre (initRun fs (filenameArgs fs args) ans)).halted = none
+
+/-- It is false on the model of the unchanged code (D12). -/
+theorem C09_isolation_full_false : ¬ IsolationFull := by
+  intro h
+  have := h envW fsW [.symlink .error, .ifchanged, .replace] [1, 3] [] [1] [] 3 (by decide)
+  revert this
+  decide
+
+/-! Non-vacuity of the hypotheses. -/
+
+-- C09_safety's hypothesis (some node differs) holds for `--symlinks=replace --replace f.py`, and the
+-- conclusion's data are the expected ones
+example : (processActions envW fsW [.symlink .replace, .ifchanged, .replace] [3] []).fs 3 ≠ fsW 3 := by decide
+
+-- C09_ifchanged: IFCHANGED guards REPLACE in `--replace`; file 4 is a fixed point of the rewriter
+example : guardedBy (fun a => decide (a = .ifchanged)) [.symlink .error, .ifchanged, .replace] = true ∧
+    fsW 4 = some (.file 12 true) ∧ envW.rw 12 = some 12 := by decide
+-- ... and without the guard the same file *is* re-created (so the guard hypothesis matters)
+example : (processActions envW fsW [.replace] [4] []).fs 4 = some (.file 12 false) := by decide
+
+-- C09_query_no: QUERY guards REPLACE in `--interactive`; answers "n", "", "no way"
+example : guardedBy Action.isQuery actionsInteractive = true ∧
+    (∀ a ∈ ["n".toList, "".toList, "no way".toList], isYes a = false) := by decide
+-- ... whereas " Y" is a yes and the file is rewritten
+example : (processActions envW fsW actionsInteractive [3] [" Y".toList]).fs 3 = some (.file 11 false) := by decide
+
+-- C09_rewriter_failure: the rewriter fails on file 5
+example : fsW 5 = some (.file 13 true) ∧ envW.rw 13 = none := by decide
+
+-- C09_skip_error_untouched_partial / C09_follow_links_kept_partial: the policy action is present for
+-- `--replace --symlinks=skip` (and not for `--symlinks=skip --replace`)
+example : policyActionPresent [.replace, .symlinks (some .skip)] .skip = true ∧
+    policyActionPresent [.symlinks (some .skip), .replace] .skip = false ∧
+    policyActionPresent [] .error = true := by decide
+-- ... and then a non-symlink argument is still rewritten while the symlink is skipped
+example : (main envW false false [.replace, .symlinks (some .skip)] fsW [1, 3] []).fs 3 = some (.file 11 false) ∧
+    (main envW false false [.replace, .symlinks (some .skip)] fsW [1, 3] []).fs 1 = some (.link 2) := by decide
+
+-- C09_follow_only_target: following the link 1 rewrites its target 2
+example : isLink fsW 1 = true ∧
+    (main envW false false [.replace, .symlinks (some .follow)] fsW [1] []).fs 2 = some (.file 11 false) ∧
+    (main envW false false [.replace, .symlinks (some .follow)] fsW [1] []).fs 1 = some (.link 2) := by decide
+
+-- C09_isolation_partial: `noSysExit` holds under the skip policy with a symlink argument, and under the
+-- default error policy when no argument is a symlink; a failing file (5) and a missing one (9) are reported
+-- and file 3 behind them is rewritten
+example : noSysExit fsW [.symlink .skip, .ifchanged, .replace] [1, 5, 3] = true ∧
+    noSysExit fsW [.symlink .error, .ifchanged, .replace] [5, 3] = true ∧
+    noSysExit fsW [.symlink .error, .ifchanged, .replace] [1, 3] = false := by decide
+example : (processActions envW fsW [.symlink .error, .ifchanged, .replace] [9, 5, 3] []).status = 1 ∧
+    (processActions envW fsW [.symlink .error, .ifchanged, .replace] [9, 5, 3] []).summary =
+      [⟨9, .badFilename⟩, ⟨5, .rewriter⟩] ∧
+    (processActions envW fsW [.symlink .error, .ifchanged, .replace] [9, 5, 3] []).fs 3 = some (.file 11 false) := by
+  decide
+
+end Witness
+
 end Pfb.C09
